@@ -28,6 +28,10 @@ func CopyDir(src, dest string, exclude []string) error {
 
 	// 递归遍历源目录中的所有文件和子目录
 	return filepath.Walk(src, func(path string, info fs.FileInfo, err error) error {
+		// 遍历出错时 info 可能为 nil, 必须先返回错误
+		if err != nil {
+			return err
+		}
 		// 从源路径中去除源目录前缀获取相对路径
 		fileName := strings.Replace(path, src, "", 1)
 		if fileName == "" {
